@@ -230,6 +230,31 @@ def check(item):
       r = cf(3)
       if r != 10:
         viol.append(V('embedded-run', 'converted function under options %r returned %r instead of 10' % (p, r), item))
+      # the converted entity itself is a lambda (its scope is entered by with_function_scope)
+      lam_src = 'lam = lambda a: a * 2 + %d\n' % (i * 0 + 1)
+      lname = '<c20lam_%d>' % i
+      linecache.cache[lname] = (len(lam_src), None, lam_src.splitlines(True), lname)
+      import sys
+      import types
+      lmod = types.ModuleType('c20lam_%d' % i)     # a real module object: the lambda source lookup needs inspect.getmodule()
+      sys.modules[lmod.__name__] = lmod
+      gl = lmod.__dict__
+      exec(compile(lam_src, lname, 'exec'), gl)  # pylint:disable=exec-used
+      try:
+        _, modl, _ = api.PyToPy().transform(gl['lam'], conv.ProgramContext(options=o))
+        n['embedded_conversions'] += 1
+        le = scope_option_exprs(ast.parse(inspect.getsource(modl)))
+        if len(le) != 1:
+          viol.append(V('embedded-count', 'lambda entity: expected 1 function scope in generated code, found %r' % (le,), item))
+        for k, (kind, e) in enumerate(le[:1]):
+          val = eval(e, {'ag__': ag})  # pylint:disable=eval-used
+          wantp = p if k == 0 else exp
+          gotp = (val.recursive, val.user_requested, val.internal_convert_user_code, frozenset(val.optional_features))
+          if gotp != wantp:
+            viol.append(V('embedded-differs-lambda-entity', 'lambda as the converted entity: options embedded in %s (scope %d) evaluate to %r, expected %r' % (kind, k, gotp, wantp), item))
+      finally:
+        linecache.cache.pop(lname, None)
+        sys.modules.pop(lmod.__name__, None)
       # the same function converted again by the same transpiler under every neighbouring value (other flag
       # combinations; one feature toggled): each conversion must embed its own options, whatever was cached before
       allowed = [k for k, f in enumerate(_S['feats']) if f not in (F.ALL, F.NAME_SCOPES, F.AUTO_CONTROL_DEPS)]
